@@ -24,13 +24,17 @@ import (
 
 const prop = "C08"
 
+// replay decodes by shape, not only by kind: witnesses of fixed findings and regression replays
+// come back under derived kind names ("fixed-<id>-<kind>", "regress-<file>").
 func replay(kind string, raw json.RawMessage) error {
-	switch kind {
-	case "history":
-		return run.Decode(raw, checkB)
-	default: // "enum" and anything derived from it (fixed-…/regress-… wrap the original kind)
-		return run.Decode(raw, checkA)
+	var probe struct {
+		Ops json.RawMessage `json:"ops"`
 	}
+	_ = json.Unmarshal(raw, &probe)
+	if kind == "history" || probe.Ops != nil {
+		return run.Decode(raw, checkB)
+	}
+	return run.Decode(raw, checkA)
 }
 
 func TestProp(t *testing.T) {
@@ -41,9 +45,13 @@ func TestProp(t *testing.T) {
 	// ---- Family A: exhaustive enumeration, sharded by index
 	shard, shards := run.Shard()
 	n, ok := 0, true
-	enumA(rec, func(c CaseA) bool {
+	enumA(func(c CaseA, excluded string) bool {
 		n++
 		if n%shards != shard {
+			return true
+		}
+		if excluded != "" {
+			rec.Excluded(excluded) // input region of an open known finding: not evaluated
 			return true
 		}
 		nt, cls := classifyA(c)
@@ -54,7 +62,7 @@ func TestProp(t *testing.T) {
 		return true
 	})
 	if ok {
-		rec.Exhaustive(fmt.Sprintf("family A: 2^6 presence patterns x 4 value types (bool in both polarities) x 7 Fill kinds/addressings x 5 read positions x decoy on/off (%d cases before known-finding exclusions)", n))
+		rec.Exhaustive(fmt.Sprintf("family A: 2^6 presence patterns x 5 value types (bool in both polarities) x 7 Fill kinds/addressings x 5 read positions x decoy on/off x 2 constructors (%d cases including those excluded by open known findings)", n))
 	}
 
 	// ---- Family B: histories on a template tree
